@@ -854,6 +854,31 @@ def m_rsplit(I, recv, args, kw):
     return PList([pyops.mk_str(head), pyops.mk_str(tail)])
 
 
+def m_partition(I, recv, args, kw, right=False):
+    """s.partition(sep) / s.rpartition(sep): (head, sep, tail) around the first / last occurrence; (s, '', '') / ('', '', s)
+    when sep does not occur"""
+    sep = I.force(_arg(args, kw, 0, "sep"))
+    if isinstance(recv, str) and isinstance(sep, str):
+        return tuple(recv.rpartition(sep) if right else recv.partition(sep))
+    if not isinstance(sep, str) or not sep:
+        raise Unsupported("partition: only a literal separator on symbolic strings")
+    c = I.ctx
+    s = _s(recv)
+    sz = z3.StringVal(sep)
+    if not c.decide(z3.Contains(s, sz), "partition-has-sep"):
+        return ("", "", recv) if right else (recv, "", "")
+    head, tail = c.fresh_str("pth"), c.fresh_str("ptt")
+    c.assume(s == z3.Concat(head, sz, tail))
+    if len(sep) == 1:
+        c.assume(not_contains(tail if right else head, sep))
+    else:
+        # the chosen occurrence is the last / first one: no occurrence starts later / earlier
+        c.assume(z3.Not(z3.Contains(z3.Concat(z3.SubString(sz, 1, len(sep) - 1), tail), sz)) if right
+                 else z3.Not(z3.Contains(z3.Concat(head, z3.SubString(sz, 0, len(sep) - 1)), sz)))
+    c.use("T-py:str.partition/rpartition definitional")
+    return (pyops.mk_str(head), sep, pyops.mk_str(tail))
+
+
 def m_split(I, recv, args, kw):
     sep = I.force(_arg(args, kw, 0, "sep"))
     maxsplit = I.force(_arg(args, kw, 1, "maxsplit", -1))
@@ -1268,6 +1293,8 @@ def install(reg):
         M[(kind, "replace")] = m_replace
         M[(kind, "rsplit")] = m_rsplit
         M[(kind, "split")] = m_split
+        M[(kind, "partition")] = m_partition
+        M[(kind, "rpartition")] = lambda I, r, a, k: m_partition(I, r, a, k, right=True)
         M[(kind, "find")] = m_find
     M[("str", "lower")] = m_lower
     M[("str", "upper")] = m_upper
